@@ -298,3 +298,39 @@ func StatEv(st *trie.SlimTrie) (e Ev) {
 	e["levelcnt"] = int(s.LevelCnt)
 	return
 }
+
+// ---- Level B: the message field by field (for SlimEncode) --------------------------------
+
+func bmEv(b *trie.Bitmap) Ev {
+	if b == nil {
+		return Ev{"bits": []int{}, "nwords": -1, "rank": []int{}, "sel": []int{}}
+	}
+	rank, sel := []int{}, []int{}
+	for _, x := range b.RankIndex {
+		rank = append(rank, int(x))
+	}
+	for _, x := range b.SelectIndex {
+		sel = append(sel, int(x))
+	}
+	return Ev{"bits": bmOnes(b.Words), "nwords": len(b.Words), "rank": rank, "sel": sel}
+}
+
+func vlenEv(v *trie.VLenArray) Ev {
+	if v == nil {
+		return Ev{"present": false}
+	}
+	return Ev{"present": true, "n": int(v.N), "eltcnt": int(v.EltCnt), "presence": bmEv(v.PresenceBM), "position": bmEv(v.PositionBM),
+		"fixed": int(v.FixedSize), "bytes": bints(v.Bytes)}
+}
+
+// ProtoEv logs the stored form itself.
+func ProtoEv(sl *trie.Slim) Ev {
+	tb := []int{}
+	for _, x := range sl.ShortTable {
+		tb = append(tb, int(x))
+	}
+	return Ev{"ev": "proto", "empty": b2i(sl.NodeTypeBM == nil), "bigcnt": int(sl.BigInnerCnt), "shortsize": int(sl.ShortSize), "shorttable": tb,
+		"nodetype": bmEv(sl.NodeTypeBM), "inners": bmEv(sl.Inners), "shortbm": bmEv(sl.ShortBM),
+		"ip": vlenEv(sl.InnerPrefixes), "lp": vlenEv(sl.LeafPrefixes), "leaves": vlenEv(sl.Leaves),
+		"unknown": len(sl.XXX_unrecognized)}
+}
